@@ -27,3 +27,23 @@ Definition udp_ok (src dst : N) (u : bytes) : bool :=
 (* header sanity of an IPv4 packet p with a 20-byte header *)
 Definition ipv4_hdr_ok (p : bytes) : bool :=
   (nth0 p 0 =? 69) && (be16 (nth0 p 2) (nth0 p 3) =? len p) && rfc1071_ok (firstn 20 p).
+
+(* ---- RFC 2131/2132: the option area is  (pad | code len data[len])*  end  any*  ---- *)
+Inductive opt_area : bytes -> list (N * bytes) -> Prop :=
+| oa_end r : opt_area (255 :: r) []
+| oa_pad r os : opt_area r os -> opt_area (0 :: r) os
+| oa_tlv c d r os : c <> 0 -> c <> 255 -> opt_area r os -> opt_area (c :: len d :: d ++ r) ((c, d) :: os).
+
+(* fixed part of a BOOTP message, by offset *)
+Record bootp_fixed := { f_op : N; f_htype : N; f_hlen : N; f_hops : N; f_xid : N; f_secs : N; f_flags : N;
+                        f_ciaddr : N; f_yiaddr : N; f_siaddr : N; f_giaddr : N;
+                        f_chaddr16 : bytes; f_sname : bytes; f_file : bytes; f_cookie : N }.
+
+Definition sub (b : bytes) (off n : nat) : bytes := firstn n (skipn off b).
+Definition w16 (b : bytes) (off : nat) : N := be16 (nth0 b off) (nth0 b (off + 1)).
+Definition w32 (b : bytes) (off : nat) : N := be32 (nth0 b off) (nth0 b (off + 1)) (nth0 b (off + 2)) (nth0 b (off + 3)).
+
+Definition bootp_fixed_of (b : bytes) : bootp_fixed :=
+  {| f_op := nth0 b 0; f_htype := nth0 b 1; f_hlen := nth0 b 2; f_hops := nth0 b 3; f_xid := w32 b 4; f_secs := w16 b 8;
+     f_flags := w16 b 10; f_ciaddr := w32 b 12; f_yiaddr := w32 b 16; f_siaddr := w32 b 20; f_giaddr := w32 b 24;
+     f_chaddr16 := sub b 28 16; f_sname := sub b 44 64; f_file := sub b 108 128; f_cookie := w32 b 236 |}.
